@@ -2,7 +2,7 @@
 # oracle soak on the unchanged tree: every property × several seeds; prints only failures
 T=/verif/build/tmp/soak; mkdir -p $T
 tier=${1:-quick}; from=${2:-1}; to=${3:-10}
-for p in C01 C02 C03 C04 C05 C06 C07 C08 C09 C10 C11 C12 C13 C14 C15 C16 C17 C18; do
+for p in ${SOAK_PROPS:-C01 C02 C03 C04 C05 C06 C07 C08 C09 C10 C11 C12 C13 C14 C15 C16 C17 C18}; do
   for s in $(seq $from $to); do
     /verif/build/harness/debug/harness prop $p $s $tier $T/$p.ops $T/$p.json > $T/$p.out 2>&1 || echo "$p seed $s: harness exit $?"
     python3 - $p $s $T/$p.json <<'PY'
@@ -13,7 +13,7 @@ try:
 except Exception as e:
     print(p,s,'NO REPORT',e); sys.exit()
 for x in d['failures']:
-    if x['key'] in ('CommodityChannelIndex:neutral-residue','MoneyFlowIndex:out-of-range-residue','CommodityChannelIndex:non-finite-residue-underflow'): continue
+    if x['key'] in ('CommodityChannelIndex:neutral-residue','MoneyFlowIndex:out-of-range-residue','CommodityChannelIndex:non-finite-residue-underflow','StandardDeviation:neutral-square-underflow','BollingerBands:neutral-square-underflow','WeightedMovingAverage:drift-marginal','WeightedMovingAverage:wma-drift-marginal'): continue
     print(p,'seed',s,'FAIL',x['key'],'|',x['msg'][:300]); print('    ',x['case'][:400])
 PY
   done
